@@ -163,6 +163,10 @@ fn do_rstep<T: Read + Seek + ?Sized>(h: &mut T, s: &RStep) -> StepRes {
     }
 }
 
+pub fn do_rstep_pub<T: Read + Seek + ?Sized>(h: &mut T, s: &RStep) -> StepRes {
+    do_rstep(h, s)
+}
+
 fn pos_class(pos: u64, len: usize) -> &'static str {
     if (pos as usize) < len {
         "pos<len"
